@@ -65,10 +65,12 @@ def replay_net(case, ctx, r, tg):
     def compare(net, what):
         r.observations += 1
         pn = project_network(net)
-        ok = len(pn['br']) == len(case['net']) and pn['ref'] == '0'
+        by_id = {pb['id']: pb for pb in pn['br']}           # matched by identifier; the order of the branch list is not part of the property
+        ok = len(pn['br']) == len(case['net']) and len(by_id) == len(pn['br']) and pn['ref'] == '0' and all(idn.eid(sb['id']) in by_id for sb in case['net'])
         if ok:
-            for pb, sb in zip(pn['br'], case['net']):
-                if not (pb['id'] == idn.eid(sb['id']) and pb['n1'] == str(sb['n1']) and pb['n2'] == str(sb['n2']) and same_elem(pb, sb['e'], 1.0, 1.0)):
+            for sb in case['net']:
+                pb = by_id[idn.eid(sb['id'])]
+                if not (pb['n1'] == str(sb['n1']) and pb['n2'] == str(sb['n2']) and same_elem(pb, sb['e'], 1.0, 1.0)):
                     ok = False
         if not ok:
             k = case['doc'][case['pos'] - 1]['type']
